@@ -1467,11 +1467,14 @@ class Interp:
             exits[t] = ss
             summ.exits[t] = self.merge_states(ss)
         self.loops.append(summ)
-        # the states leaving the loop keep the guard of the loop entry
+        summ.back_states = list(outs.get(header, []))
+        summ.exit_states = {t: list(ss) for t, ss in exits.items()}
+        # the states leaving the loop continue under the loop entry's guard extended by the
+        # (loop-local) condition under which that exit is taken in the final iteration
         res = {}
         for t, ss in exits.items():
             m = summ.exits[t]
-            res[t] = [State(m.store, st0.guard, st0.facts | m.facts)]
+            res[t] = [State(m.store, st0.guard + m.guard, st0.facts | m.facts)]
         return res
 
     def _temp_local(self, frame, local):
